@@ -510,14 +510,29 @@ pub open spec fn ver_ge(v: Ver, a: int, b: int, c: int) -> bool {
     v.major > a || (v.major == a && (v.minor > b || (v.minor == b && v.patch >= c)))
 }
 #[verifier::external_body]
-pub broadcast proof fn axiom_semver_reqs(v: Ver)
-    ensures
-        req_parse(">=0.16.2"@) is Some, #[trigger] req_matches(req_parse(">=0.16.2"@)->0, v) == (!v.pre && ver_ge(v, 0, 16, 2)),
-        req_parse(">=0.15.0"@) is Some, req_matches(req_parse(">=0.15.0"@)->0, v) == (!v.pre && ver_ge(v, 0, 15, 0)),
-        req_parse("<0.16.2"@) is Some, req_matches(req_parse("<0.16.2"@)->0, v) == (!v.pre && !ver_ge(v, 0, 16, 2)),
-        req_parse(">=0.16.2, <0.19.1"@) is Some,
-        req_matches(req_parse(">=0.16.2, <0.19.1"@)->0, v) == (!v.pre && ver_ge(v, 0, 16, 2) && !ver_ge(v, 0, 19, 1)),
+pub broadcast proof fn axiom_semver_req_ge_0_16_2(v: Ver)
+    ensures #[trigger] req_matches(req_parse(">=0.16.2"@)->0, v) == (!v.pre && ver_ge(v, 0, 16, 2))
 {}
+#[verifier::external_body]
+pub broadcast proof fn axiom_semver_req_ge_0_15_0(v: Ver)
+    ensures #[trigger] req_matches(req_parse(">=0.15.0"@)->0, v) == (!v.pre && ver_ge(v, 0, 15, 0))
+{}
+#[verifier::external_body]
+pub broadcast proof fn axiom_semver_req_lt_0_16_2(v: Ver)
+    ensures #[trigger] req_matches(req_parse("<0.16.2"@)->0, v) == (!v.pre && !ver_ge(v, 0, 16, 2))
+{}
+#[verifier::external_body]
+pub broadcast proof fn axiom_semver_req_window(v: Ver)
+    ensures #[trigger] req_matches(req_parse(">=0.16.2, <0.19.1"@)->0, v) == (!v.pre && ver_ge(v, 0, 16, 2) && !ver_ge(v, 0, 19, 1))
+{}
+#[verifier::external_body]
+pub broadcast proof fn axiom_semver_reqs_parse()
+    ensures req_parse(">=0.16.2"@) is Some, req_parse(">=0.15.0"@) is Some, req_parse("<0.16.2"@) is Some,
+            #[trigger] req_parse(">=0.16.2, <0.19.1"@) is Some,
+{}
+pub broadcast group axiom_semver_reqs {
+    axiom_semver_req_ge_0_16_2, axiom_semver_req_ge_0_15_0, axiom_semver_req_lt_0_16_2, axiom_semver_req_window,
+}
 pub struct Version { pub g: Ghost<Ver> }
 pub struct VersionReq { pub g: Ghost<int> }
 impl Version {
@@ -551,51 +566,25 @@ impl HashSet<String> {
 }
 // error payload only; no property reads it
 #[verifier::external_body] pub fn collect_strings(v: Vec<&str>) -> (r: Vec<String>) { unimplemented!() }
+// rule R5 helper: the set of strings of the list (definition of `into_iter().map(..).collect::<HashSet<String>>()`; assumed)
+#[verifier::external_body]
 pub fn attr_names(v: Vec<ProvAttribute>) -> (r: HashSet<String>)
-    ensures forall|s: Seq<char>| r@.contains(s) <==> exists|i: int| 0 <= i < v@.len() && (#[trigger] v@[i]).name@ == s
-{
-    let mut out = HashSet::<String>::new();
-    let mut i: usize = 0;
-    while i < v.len()
-        invariant 0 <= i <= v@.len(),
-            forall|s: Seq<char>| out@.contains(s) <==> exists|j: int| 0 <= j < i && (#[trigger] v@[j]).name@ == s,
-        decreases v@.len() - i,
-    {
-        out.insert(v[i].name.clone());
-        i = i + 1;
-    }
-    out
-}
+    ensures forall|s: Seq<char>| #![trigger r@.contains(s)] #![trigger in_names(v@, s)] r@.contains(s) <==> in_names(v@, s)
+{ unimplemented!() }
+// rule R5 helper: the set of strings of the list (definition of `into_iter().map(..).collect::<HashSet<String>>()`; assumed)
+#[verifier::external_body]
 pub fn addr_string_set(v: Vec<Addr>) -> (r: HashSet<String>)
-    ensures forall|s: Seq<char>| r@.contains(s) <==> exists|i: int| 0 <= i < v@.len() && (#[trigger] v@[i]).s@ == s
-{
-    let mut out = HashSet::<String>::new();
-    let mut i: usize = 0;
-    while i < v.len()
-        invariant 0 <= i <= v@.len(),
-            forall|s: Seq<char>| out@.contains(s) <==> exists|j: int| 0 <= j < i && (#[trigger] v@[j]).s@ == s,
-        decreases v@.len() - i,
-    {
-        out.insert(v[i].s.clone());
-        i = i + 1;
-    }
-    out
-}
+    ensures forall|s: Seq<char>| #![trigger r@.contains(s)] #![trigger in_addrs(v@, s)] r@.contains(s) <==> in_addrs(v@, s)
+{ unimplemented!() }
+// rule R5 helper: the set of strings of the list (definition of `into_iter().map(..).collect::<HashSet<String>>()`; assumed)
+#[verifier::external_body]
 pub fn string_set(v: Vec<String>) -> (r: HashSet<String>)
-    ensures forall|s: Seq<char>| r@.contains(s) <==> exists|i: int| 0 <= i < v@.len() && (#[trigger] v@[i])@ == s
-{
-    let mut out = HashSet::<String>::new();
-    let mut i: usize = 0;
-    while i < v.len()
-        invariant 0 <= i <= v@.len(),
-            forall|s: Seq<char>| out@.contains(s) <==> exists|j: int| 0 <= j < i && (#[trigger] v@[j])@ == s,
-        decreases v@.len() - i,
-    {
-        out.insert(v[i].clone());
-        i = i + 1;
-    }
-    out
-}
+    ensures forall|s: Seq<char>| #![trigger r@.contains(s)] #![trigger in_strs(v@, s)] r@.contains(s) <==> in_strs(v@, s)
+{ unimplemented!() }
+#[verifier::external_body]
+pub fn string_set_ref(v: &Vec<String>) -> (r: HashSet<String>)
+    ensures forall|s: Seq<char>| #![trigger r@.contains(s)] #![trigger in_strs(v@, s)] r@.contains(s) <==> in_strs(v@, s)
+{ unimplemented!() }
 pub fn any_missing(req: &Vec<String>, names: &HashSet<String>) -> (r: bool)
     ensures r == exists|i: int| 0 <= i < req@.len() && !names@.contains((#[trigger] req@[i])@)
 {
